@@ -49,3 +49,14 @@ def register_all(prop):
                "is held between the controller's group lookup and the group's own lock while the last member leaves. non-trivial = history with a "
                "refused join and a last leave; distinct = distinct op sequence."),
          assumptions=["groups of different kinds and ids use disjoint endpoints, so cross-group conflicts are outside the generated domain"])
+    prop("C10", qshards=8, tshards=16, qlimit=480, tlimit=3000,
+         rule=("cycles: rapid draws 1..4 of 11 proxy kinds (tcp, tcp-group, udp, http with 2 domains x 2 locations, http-group, https, tcpmux, "
+               "tcpmux-group, stcp, sudp, xtcp), a termination path (CloseProxy then identical re-registration on the same session; control "
+               "connection cut after k messages of the script incl. with a registration in flight; re-login with the same run id; heartbeat "
+               "timeout; registration failing part-way because its last domain / its port belongs to a bystander), pool size, tcpMux, traffic "
+               "or not, and 1..12 repetitions. Oracle: the identical registration afterwards succeeds; the server's tables (sessions, names, "
+               "ports, routes, visitors, groups, nat clients; snapshot hook) equal the state before the cycle; a bystander's tcp / http / "
+               "tcpmux tunnels keep answering; over 12 identical cycles goroutines and descriptors do not grow by one per cycle. non-trivial = "
+               "termination other than a plain close, or >= 10 cycles; distinct = distinct (types, path, cut point, cycles, options)."),
+         assumptions=["after a cut or timeout the harness waits until the session table no longer lists the run id before re-registering ('shortly after the old one ended')",
+                      "goroutine/descriptor counts are process-wide (harness included) and compared between the middle and the end of identical cycles"])
